@@ -16,6 +16,10 @@ PRELUDE = """
 use std::convert::TryFrom;
 #[derive(Clone, Debug, PartialEq, Eq)]
 pub struct Opaque;
+impl Opaque {
+    /// R1: the erased token text; its byte length is unrelated to the columns (any value)
+    pub fn len(&self) -> usize { kani::any() }
+}
 """
 
 HARNESS = """
@@ -168,6 +172,9 @@ HARNESS = """
         if lineno == 0 { assert!(loc == Location::Unknown, "line 0 means no position"); }
         else { assert!(loc == Location::Range { ln_begin: lineno, col_begin: cb, ln_end: lineno, col_end: ce }, "a token is located on its own line between its columns"); }
         if cb <= ce { assert!(wf(loc), "token location is well-formed when col_begin <= col_end"); }
+        // the accessors of a token agree with its location (columns count characters of the source, not bytes of the content)
+        assert!(Locational::col_begin(&t) == loc.col_begin() && Locational::col_end(&t) == loc.col_end(), "col_begin / col_end of a token are those of its location");
+        assert!(Locational::ln_begin(&t) == loc.ln_begin() && Locational::ln_end(&t) == loc.ln_end(), "ln_begin / ln_end of a token are those of its location");
     }
 """
 
@@ -195,10 +202,8 @@ def build(run):
     tok = Snippet(ksrc.item('struct', 'Token'), 'struct Token')
     tok.rw('R1', r'\bStr\b', 'Opaque', expect=1)
     unit.add(tok)
-    tl = Snippet(ksrc.fn('loc', impl=r'Locational for Token'), 'Token::loc')
-    unit.raw("impl Locational for Token {\n")
-    unit.add(tl)
-    unit.raw("}\n")
+    # the whole impl (not only `loc`): an accessor overridden here must agree with the stored location
+    unit.add(Snippet(ksrc.impl_block(r'Locational for Token'), 'impl Locational for Token'))
     # the macro that gives most AST/HIR nodes their location repeats the match of Location::concat: carried verbatim and instantiated
     unit.add(Snippet(tsrc.macro_def('impl_locational'), 'macro impl_locational! (three arms)'))
     unit.harness(HARNESS)
